@@ -1,0 +1,7 @@
+//go:build !verif
+
+// Package verifhook holds instrumentation for runtime verification, only active with build tag verif.
+package verifhook
+
+// Tick does nothing without build tag verif
+func Tick(string) {}
